@@ -23,7 +23,8 @@ RULE = ('Four seeded workloads on the real parse(), all observed by the parser.p
         'skipped strings are substrings of the input in order; AM/PM look-alikes that cannot be flags (no hour yet, hour > 12, '
         'flag already set) must be reported as skipped.  (d) relation: any token soup or rendering accepted without fuzzy gives '
         'the same result with fuzzy and fuzzy_with_tokens.  Non-trivial = every case; distinct = (workload, field subset / '
-        'branch / template, default-day class, zone form, process TZ).')
+        'branch / template, default-day class, zone form, process TZ).'
+        ' Also: two-member numeric day/month texts under dayfirst, and in-process TZ switches (tzset) between zones that share abbreviations but not offsets, through the module-level parser and a reused parser instance.')
 ASSUMPTIONS = ['filler vocabulary is inert (lower/mixed-case words that are no month, weekday, AM/PM, h/m/s, jump or zone word)',
                'vf/render_gen.py templates', 'local zone names come from the C library via time.tzname for the shard\'s TZ']
 MANIFEST = {
